@@ -1,5 +1,266 @@
 import MgModel.C04.Locks
 import MgModel.C04.Once
 import MgModel.C04.RefCnt
+/-! Invariants and their preservation for the C04 models. Property theorems: `Props.lean`. -/
 namespace MgProof.C04
+open MgModel.Conc MgModel.C04
+
+/-! ## Locks -/
+
+/-- thread `t` holds the lock: between a successful acquire and its release -/
+def holds (s : St) (t : Nat) : Prop :=
+  s.pc t = .csRead ∨ (∃ tmp, s.pc t = .csWrite tmp) ∨ s.pc t = .rel
+
+/-- thread `t` is inside the harness's ghost critical-section window -/
+def inCS (s : St) (t : Nat) : Prop :=
+  s.pc t = .csRead ∨ (∃ tmp, s.pc t = .csWrite tmp)
+
+structure LockInv (k : Kind) (s : St) : Prop where
+  kind   : s.kind = k
+  locked : ∀ t, holds s t → s.lock = 1
+  excl   : ∀ t u, holds s t → holds s u → t = u
+  cnt1   : s.inCs ≤ 1
+  cnt0   : s.inCs ≠ 0 → ∃ t, inCS s t
+  viol   : s.viol = 0
+  hb     : s.dataW = 0 ∨ ((s.lock = 0 → s.dataW ∈ s.relSet) ∧ ∀ t, holds s t → s.dataW ∈ s.know t)
+  stale  : s.staleReads = 0
+
+theorem lockInv_init (k : Kind) (n r : Nat) : LockInv k (mkInit k n r) := by
+  refine ⟨rfl, ?_, ?_, by simp [mkInit], by simp [mkInit], rfl, Or.inl rfl, rfl⟩
+  · intro t h
+    simp only [holds, mkInit] at h
+    split at h <;> simp at h
+  · intro t u h
+    simp only [holds, mkInit] at h
+    split at h <;> simp at h
+
+theorem firstBlocked_blocked {pc : Nat → Pc} {k i w : Nat} (h : firstBlocked pc k i = some w) :
+    pc w = .blocked := by
+  induction k generalizing i with
+  | zero => simp [firstBlocked] at h
+  | succ k ih =>
+    simp only [firstBlocked] at h
+    split at h
+    · injection h with h; subst h; assumption
+    · exact ih h
+
+/-- entering the critical section from a state where the lock was free -/
+theorem enterCs_inv {k : Kind} {s : St} {t : Nat} (inv : LockInv k s)
+    (hfree : s.lock = 0) (hnot : ¬ holds s t) :
+    LockInv k (enterCs { s with lock := 1 } t).1 := by
+  have nobody : ∀ u, ¬ holds s u := fun u hu => by have := inv.locked u hu; omega
+  have hc0 : s.inCs = 0 := by
+    by_cases h : s.inCs = 0
+    · exact h
+    · obtain ⟨u, hu⟩ := inv.cnt0 h
+      exact absurd (by rcases hu with hu | hu; exact Or.inl hu; exact Or.inr (Or.inl hu)) (nobody u)
+  have hone : ¬ (s.inCs + 1 ≠ 1) := by omega
+  unfold enterCs
+  simp only [hone, if_false]
+  refine ⟨inv.kind, fun _ _ => rfl, ?_, by simp [hc0], ?_, inv.viol, ?_, inv.stale⟩
+  · intro a b ha hb
+    have ha' : a = t := by
+      by_cases h : a = t
+      · exact h
+      · exfalso; apply nobody a
+        simpa [holds, upd, h] using ha
+    have hb' : b = t := by
+      by_cases h : b = t
+      · exact h
+      · exfalso; apply nobody b
+        simpa [holds, upd, h] using hb
+    omega
+  · intro _
+    exact ⟨t, Or.inl (by simp)⟩
+  · rcases inv.hb with h | ⟨h1, _⟩
+    · exact Or.inl h
+    · refine Or.inr ⟨by simp, ?_⟩
+      intro u hu
+      have hut : u = t := by
+        by_cases h : u = t
+        · exact h
+        · exfalso; apply nobody u
+          simpa [holds, upd, h] using hu
+      subst hut
+      simp only [upd_same]
+      exact List.mem_append_right _ (h1 hfree)
+
+/-- a step that changes only the pc of `t` to a value outside the lock-holding set,
+from a pc outside it -/
+theorem pcOnly_inv {k : Kind} {s : St} {t : Nat} {p : Pc} (inv : LockInv k s)
+    (hold : ¬ holds s t)
+    (hp : p ≠ .csRead ∧ (∀ tmp, p ≠ .csWrite tmp) ∧ p ≠ .rel) :
+    LockInv k { s with pc := upd s.pc t p } := by
+  have key : ∀ u, holds { s with pc := upd s.pc t p } u → holds s u ∧ u ≠ t := by
+    intro u hu
+    by_cases h : u = t
+    · subst h
+      simp only [holds, upd_same] at hu
+      rcases hu with hu | ⟨tmp, hu⟩ | hu
+      · exact absurd hu hp.1
+      · exact absurd hu (hp.2.1 tmp)
+      · exact absurd hu hp.2.2
+    · exact ⟨by simpa [holds, upd, h] using hu, h⟩
+  refine ⟨inv.kind, fun u hu => inv.locked u (key u hu).1,
+    fun a b ha hb => inv.excl a b (key a ha).1 (key b hb).1, inv.cnt1, ?_, inv.viol, ?_, inv.stale⟩
+  · intro h
+    obtain ⟨u, hu⟩ := inv.cnt0 h
+    have hut : u ≠ t := by
+      intro e; subst e
+      exact hold (by rcases hu with hu | hu; exact Or.inl hu; exact Or.inr (Or.inl hu))
+    exact ⟨u, by simpa [inCS, upd, hut] using hu⟩
+  · rcases inv.hb with h | ⟨h1, h2⟩
+    · exact Or.inl h
+    · exact Or.inr ⟨h1, fun u hu => h2 u (key u hu).1⟩
+
+
+theorem lockInv_congr {k : Kind} {s s' : St} (inv : LockInv k s)
+    (h1 : s'.kind = s.kind) (h2 : s'.lock = s.lock) (h3 : s'.pc = s.pc) (h4 : s'.inCs = s.inCs)
+    (h5 : s'.viol = s.viol) (h6 : s'.dataW = s.dataW) (h7 : s'.relSet = s.relSet)
+    (h8 : s'.know = s.know) (h9 : s'.staleReads = s.staleReads) : LockInv k s' := by
+  obtain ⟨a, b, c, d, e, f, g, h⟩ := inv
+  refine ⟨by rw [h1]; exact a, ?_, ?_, by rw [h4]; exact d, ?_, by rw [h5]; exact f, ?_, by rw [h9]; exact h⟩
+  · intro t ht; rw [h2]; apply b t; simpa [holds, h3] using ht
+  · intro t u ht hu
+    exact c t u (by simpa [holds, h3] using ht) (by simpa [holds, h3] using hu)
+  · intro hh; rw [h4] at hh; obtain ⟨t, ht⟩ := e hh; exact ⟨t, by simpa [inCS, h3] using ht⟩
+  · rw [h6, h2, h7, h8]
+    rcases g with g | ⟨g1, g2⟩
+    · exact Or.inl g
+    · exact Or.inr ⟨g1, fun t ht => g2 t (by simpa [holds, h3] using ht)⟩
+
+/-- the holder reads `data`: it is guaranteed to see the latest write -/
+theorem csRead_inv {k : Kind} {s : St} {t : Nat} (inv : LockInv k s) (hpc : s.pc t = .csRead) :
+    LockInv k { s with pc := upd s.pc t (.csWrite s.data),
+                       staleReads := s.staleReads +
+                         (if s.dataW = 0 ∨ s.dataW ∈ s.know t then 0 else 1) } := by
+  have ht : holds s t := Or.inl hpc
+  have key : ∀ u, holds { s with pc := upd s.pc t (.csWrite s.data) } u → holds s u := by
+    intro u hu
+    by_cases h : u = t
+    · subst h; exact ht
+    · simpa [holds, upd, h] using hu
+  have hseen : s.dataW = 0 ∨ s.dataW ∈ s.know t := by
+    rcases inv.hb with h | ⟨_, h2⟩
+    · exact Or.inl h
+    · exact Or.inr (h2 t ht)
+  refine ⟨inv.kind, fun u hu => inv.locked u (key u hu),
+    fun a b ha hb => inv.excl a b (key a ha) (key b hb), inv.cnt1, ?_, inv.viol, ?_, ?_⟩
+  · intro _
+    exact ⟨t, Or.inr ⟨s.data, by simp⟩⟩
+  · rcases inv.hb with h | ⟨h1, h2⟩
+    · exact Or.inl h
+    · exact Or.inr ⟨h1, fun u hu => h2 u (key u hu)⟩
+  · simp [hseen, inv.stale]
+
+/-- the holder writes `data` and leaves the ghost window -/
+theorem csWrite_inv {k : Kind} {s : St} {t tmp : Nat} (inv : LockInv k s)
+    (hpc : s.pc t = .csWrite tmp) :
+    LockInv k { s with data := tmp + 1, pc := upd s.pc t .rel, inCs := s.inCs - 1,
+                       dataW := s.nextW, nextW := s.nextW + 1,
+                       know := upd s.know t (s.nextW :: s.know t) } := by
+  have ht : holds s t := Or.inr (Or.inl ⟨tmp, hpc⟩)
+  have key : ∀ u, holds { s with pc := upd s.pc t Pc.rel } u → holds s u := by
+    intro u hu
+    by_cases h : u = t
+    · subst h; exact ht
+    · simpa [holds, upd, h] using hu
+  refine ⟨inv.kind, fun u hu => inv.locked u (key u hu),
+    fun a b ha hb => inv.excl a b (key a ha) (key b hb), ?_, ?_, inv.viol, ?_, inv.stale⟩
+  · have := inv.cnt1; show s.inCs - 1 ≤ 1; omega
+  · intro h
+    have := inv.cnt1
+    exfalso; apply h; show s.inCs - 1 = 0; omega
+  · refine Or.inr ⟨?_, ?_⟩
+    · intro h0
+      have := inv.locked t ht
+      simp at h0; omega
+    · intro u hu
+      have hut : u = t := inv.excl u t (key u hu) ht
+      subst hut
+      simp
+
+/-- the holder releases the lock -/
+theorem release_inv {k : Kind} {s : St} {t : Nat} {p : Pc} (inv : LockInv k s)
+    (hpc : s.pc t = .rel)
+    (hp : p ≠ .csRead ∧ (∀ tmp, p ≠ .csWrite tmp) ∧ p ≠ .rel) :
+    LockInv k { s with lock := 0, relSet := s.know t, pc := upd s.pc t p } := by
+  have ht : holds s t := Or.inr (Or.inr hpc)
+  have nobody : ∀ u, ¬ holds { s with pc := upd s.pc t p } u := by
+    intro u hu
+    by_cases h : u = t
+    · subst h
+      simp only [holds, upd_same] at hu
+      rcases hu with hu | ⟨tmp, hu⟩ | hu
+      · exact hp.1 hu
+      · exact hp.2.1 tmp hu
+      · exact hp.2.2 hu
+    · have hu' : holds s u := by simpa [holds, upd, h] using hu
+      exact h (inv.excl u t hu' ht)
+  refine ⟨inv.kind, fun u hu => absurd hu (nobody u), fun a _ ha _ => absurd ha (nobody a),
+    inv.cnt1, ?_, inv.viol, ?_, inv.stale⟩
+  · intro h
+    obtain ⟨u, hu⟩ := inv.cnt0 h
+    have hu' : holds s u := by rcases hu with hu | hu; exact Or.inl hu; exact Or.inr (Or.inl hu)
+    have hut : u = t := inv.excl u t hu' ht
+    subst hut
+    rcases hu with hu | ⟨tmp, hu⟩ <;> rw [hpc] at hu <;> simp at hu
+  · rcases inv.hb with h | ⟨_, h2⟩
+    · exact Or.inl h
+    · exact Or.inr ⟨fun _ => h2 t ht, fun u hu => absurd hu (nobody u)⟩
+
+/-! ## call_once -/
+
+namespace OnceP
+open MgModel.C04.Once
+
+def running (p : Once.Pc) : Prop :=
+  p = .b1 ∨ (∃ tmp, p = .b2 tmp) ∨ p = .b3 ∨ p = .pub
+
+structure Inv (s : Once.St) : Prop where
+  f0 : s.flag = 0 → s.bodyRuns = 0 ∧ s.bodyDone = 0 ∧ ∀ t, s.pc t = .cas
+  f1 : s.flag = 1 → ∃ r, running (s.pc r) ∧ (∀ t, t ≠ r → s.pc t = .cas ∨ s.pc t = .spin) ∧
+        (s.pc r = .b1 → s.bodyRuns = 0 ∧ s.bodyDone = 0) ∧
+        (∀ tmp, s.pc r = .b2 tmp → tmp = 0 ∧ s.bodyRuns = 0 ∧ s.bodyDone = 0) ∧
+        (s.pc r = .b3 → s.bodyRuns = 1 ∧ s.bodyDone = 0) ∧
+        (s.pc r = .pub → s.bodyRuns = 1 ∧ s.bodyDone = 1 ∧ 1 ∈ s.know r)
+  f2 : s.flag = 2 → s.bodyRuns = 1 ∧ s.bodyDone = 1 ∧ 1 ∈ s.relSet ∧
+        (∀ t, s.pc t = .cas ∨ s.pc t = .spin ∨ s.pc t = .ret ∨ s.pc t = .done) ∧
+        (∀ t, s.pc t = .ret → 1 ∈ s.know t)
+  fle : s.flag ≤ 2
+  early : s.early = 0
+  stale : s.staleReads = 0
+
+end OnceP
+
+/-! ## ref_cnt -/
+
+namespace RefP
+open MgModel.C04.RefCnt
+
+/-- the sequential specification: a counter that saturates at zero -/
+def specApply (c : Nat) : Op → Nat × Option Nat
+  | .retain => if c = 0 then (0, none) else (c + 1, some (c + 1))
+  | .release => if c = 0 then (0, none) else (c - 1, some (c - 1))
+
+def specRun : Nat → List Op → Nat × List (Option Nat)
+  | c, [] => (c, [])
+  | c, op :: ops =>
+    let (c1, r) := specApply c op
+    let (c2, rs) := specRun c1 ops
+    (c2, r :: rs)
+
+theorem specRun_append (c : Nat) (a b : List Op) :
+    specRun c (a ++ b) =
+      ((specRun (specRun c a).1 b).1, (specRun c a).2 ++ (specRun (specRun c a).1 b).2) := by
+  induction a generalizing c with
+  | nil => simp [specRun]
+  | cons op a ih => simp [specRun, ih]
+
+structure Inv (init : Nat) (s : RefCnt.St) : Prop where
+  lin : specRun init (s.log.map Prod.fst) = (s.ref, s.log.map Prod.snd)
+  casNz : ∀ t v, s.pc t = .cas v → v ≠ 0
+
+end RefP
+
 end MgProof.C04
